@@ -58,7 +58,7 @@ ZOO = {
     10: dict(profiles=["plans"], quick=600000, thorough=7200000, probes=["plan_firstlast"], fs=["ALL", ["PLANS"]]),
     11: dict(profiles=["replica", "general", "guards"], quick=720000, thorough=8640000, fs=["ALL", ["HISTORY"]]),
     12: dict(profiles=["serial"], quick=600000, thorough=7200000, fs=["ALL", ["SERIAL"]]),
-    15: dict(profiles=["general", "phases"], quick=600000, thorough=7200000, fs=["ALL", "MIN"], cfgs=[1, 3, 5, 6, 8, 12, 16, 17, 18, 19]),
+    15: dict(profiles=["general", "phases"], quick=600000, thorough=7200000, fs=["ALL", "MIN"], cfgs=[1, 3, 5, 6, 8, 12, 15, 16, 17, 18, 19]),
     16: dict(profiles=["logging"], quick=360000, thorough=4320000, fs=["ALL", "VERBOSE", ["LOG"]]),
     17: dict(profiles=["fork", "general"], quick=360000, thorough=4320000, san=20000, fs=["ALL", "MIN"]),
     18: dict(profiles=["general", "plans", "guards"], quick=270000, thorough=3240000, san=30000, fs=["ALL", "MIN"]),
@@ -262,6 +262,22 @@ def san_replay(n, R, gcc_exe, count, seed, cfg):
         vc.parallel(emit_cmds)
         cmds = [[exe, "digest", "--mode", "0", "--prop", str(n), cp] for cp in corpora]
         outs = vc.parallel(cmds, env=env)
+        # build differential (C18): a program without undefined behaviour does the same under g++ -O1 and under clang -O1 with the sanitizers;
+        # a difference in anything observable (first field after the index = digest of the whole trace) is a symptom of undefined or
+        # unspecified behaviour even when no sanitizer has a check for it
+        plain = need_zoo(cfg.get("fs", ["ALL"])[0], variant, "gcc", R) if n == 18 else None
+        pouts = vc.parallel([[plain, "digest", "--mode", "0", "--prop", "-1", cp] for cp in corpora]) if plain else []
+        for cp, (rcp, outp), (rcs, outs_) in zip(corpora, pouts, outs) if plain else []:
+            a = [l.split()[:2] for l in outp.splitlines() if l and l[0].isdigit()]
+            b = [l.split()[:2] for l in outs_.splitlines() if l and l[0].isdigit()]
+            for k in range(min(len(a), len(b))):
+                if a[k] != b[k]:
+                    case_path = extract_case(cp, k, os.path.join(od, "build-diff-%s-%d.case" % (variant, k)))
+                    R.violation(case_path, "generated case #%d behaves differently when the same sources are built with g++ -O1 and with clang++ -O1 -fsanitize=address,undefined (%s header): "
+                                "behaviour that depends on the compiler is undefined or unspecified behaviour (render the case with ./check --show on both builds)" % (k, variant))
+                    break
+            if R.violations:
+                break
         for cp, (rc, out) in zip(corpora, outs):
             lines = [l for l in out.splitlines() if l and l[0].isdigit()]
             total += len(lines)
